@@ -781,6 +781,27 @@ def translate_gen(repo: Path):
     return out
 
 
+def _lookups_under_recursion_handler(fn, names):
+    """(number of calls to one of `names` inside fn, number of those NOT inside the body of a `try` with an `except RecursionError`)"""
+    parents = {}
+    for n in ast.walk(fn):
+        for ch in ast.iter_child_nodes(n):
+            parents[ch] = n
+    lookups, unguarded = 0, 0
+    for n in ast.walk(fn):
+        if isinstance(n, ast.Call) and _src(n.func) in names:
+            lookups += 1
+            cur, ok = n, False
+            while cur in parents:
+                par = parents[cur]
+                if isinstance(par, ast.Try) and cur in par.body and any(h.type is not None and "RecursionError" in _src(h.type) for h in par.handlers):
+                    ok = True
+                    break
+                cur = par
+            unguarded += not ok
+    return lookups, unguarded
+
+
 def translate_td(repo: Path):
     """gen/typeddicts.py: are the removals of a renamed key skipped when the rename does not change the key?"""
     file = "src/cattrs/gen/typeddicts.py"
@@ -800,22 +821,7 @@ def translate_td(repo: Path):
         raise T1Unrecognised(file, fn[0].lineno, f"expected three guarded removals of renamed keys, found {len(guards)}")
     # every attribute hook lookup of the structure generator survives the signal that cuts reference cycles: it is
     # find_structure_handler(...) (which catches RecursionError) or a converter.get_structure_hook(...) inside `try: ... except RecursionError:`
-    parents = {}
-    for n in ast.walk(fn[0]):
-        for ch in ast.iter_child_nodes(n):
-            parents[ch] = n
-    lookups, unguarded = 0, 0
-    for n in ast.walk(fn[0]):
-        if isinstance(n, ast.Call) and _src(n.func) in ("converter.get_structure_hook", "converter._structure_func.dispatch"):
-            lookups += 1
-            cur, ok = n, False
-            while cur in parents:
-                par = parents[cur]
-                if isinstance(par, ast.Try) and cur in par.body and any(h.type is not None and "RecursionError" in _src(h.type) for h in par.handlers):
-                    ok = True
-                    break
-                cur = par
-            unguarded += not ok
+    lookups, unguarded = _lookups_under_recursion_handler(fn[0], ("converter.get_structure_hook", "converter._structure_func.dispatch"))
     if lookups == 0 and "find_structure_handler(" not in _src(fn[0]):
         raise T1Unrecognised(file, fn[0].lineno, "no attribute hook lookup found in the TypedDict structure generator")
     catch = unguarded == 0
@@ -950,7 +956,20 @@ def translate_threads(repo: Path):
             ok = (f"working_set.remove({k})" in body and re.search(rf"if {k} in working_set:\s*\n\s*raise RecursionError\(\)", body) is not None)
         if not ok:
             unguarded.append(f"{f}:{name}")
-    return {"thread_local": tl, "guarded_generators": sites, "all_generators_guarded": not unguarded, "unguarded_generators": unguarded}
+    # ... and every attribute hook lookup made while generating a STRUCTURE hook catches the cycle signal (it becomes late binding):
+    # find_structure_handler (attrs / dataclass generator, detailed TypedDict branch) and the TypedDict generator's own lookups (F43)
+    fsh_file = "src/cattrs/gen/_shared.py"
+    m = ast.parse((repo / fsh_file).read_text())
+    fsh = [n for n in m.body if isinstance(n, ast.FunctionDef) and n.name == "find_structure_handler"]
+    if len(fsh) != 1:
+        raise T1Unrecognised(fsh_file, 0, "find_structure_handler not found")
+    n_fsh, un_fsh = _lookups_under_recursion_handler(fsh[0], ("c.get_structure_hook", "c._structure_func.dispatch"))
+    if n_fsh == 0:
+        raise T1Unrecognised(fsh_file, fsh[0].lineno, "find_structure_handler: no hook lookup found")
+    td = translate_td(repo)
+    catch = un_fsh == 0 and bool(td["lookups_catch_cycles"])
+    return {"thread_local": tl, "guarded_generators": sites, "all_generators_guarded": not unguarded, "unguarded_generators": unguarded,
+            "lookups_catch_cycles": catch, "find_structure_handler_catches": un_fsh == 0}
 
 
 GENERATORS = [("src/cattrs/gen/__init__.py", "make_dict_unstructure_fn"), ("src/cattrs/gen/__init__.py", "make_dict_structure_fn"),
@@ -962,7 +981,9 @@ def emit_threads(t) -> str:
     return ("(* GENERATED by harness/t1_translate.py from src/cattrs/gen/_consts.py, gen/__init__.py, gen/typeddicts.py, cols.py -- do not edit *)\n"
             f"Definition src_thread_local : bool := {_coq_bool(t['thread_local'])}.\n"
             "(* every hook generator adds the class to the working set, refuses re-entry and removes it in a finally *)\n"
-            f"Definition src_all_generators_guarded : bool := {_coq_bool(t['all_generators_guarded'])}.\n")
+            f"Definition src_all_generators_guarded : bool := {_coq_bool(t['all_generators_guarded'])}.\n"
+            "(* every attribute hook lookup of the structure generators catches the RecursionError that signals a reference cycle *)\n"
+            f"Definition src_lookups_catch_cycles : bool := {_coq_bool(t['lookups_catch_cycles'])}.\n")
 
 
 def emit_unions(u) -> str:
